@@ -185,6 +185,56 @@ def make_sessions(ctx, nses):
     return out, scipy_bad
 
 
+def big_sessions(ctx, first_sid, count):
+    """inputs far beyond any size threshold (n > 1024): many copies of a few distinct rows, so that the specification's
+    distances of the distinct rows decide the whole result"""
+    import pandas as pd
+    import pyrepseq as prs
+    import scipy.cluster.hierarchy as hc
+    out, scipy_bad = [], []
+    amap = {c: i for i, c in enumerate(nc.AA)}
+    for r in range(count):
+        sid = first_sid + r
+        table = r % 2 == 1
+        method = ("single", "single", "average", "complete")[r % 4]
+        t = ctx.rng.choice([1, 2, 3])
+        m = ctx.rng.randint(5, 8)
+        useqs = []
+        while len(useqs) < m:
+            for s_ in nc.repertoire(ctx.rng, m, maxmut=2, maxlen=9, families=3, short=0):
+                if s_ not in useqs and len(useqs) < m:
+                    useqs.append(s_)
+        useqs2 = nc.repertoire(ctx.rng, m, maxmut=1, maxlen=8, families=2, short=0)
+        urows = [[a, b] for a, b in zip(useqs, useqs2)] if table else [[a] for a in useqs]
+        big = ctx.rng.choice([1030, 1100, 1300] if r % 3 else [1025, 2060])
+        idx = list(range(m)) + [ctx.rng.randrange(m) for _ in range(big - m)]
+        ctx.rng.shuffle(idx)
+        rows = [urows[i] for i in idx]
+        D = [[sum(lev(x, y) for x, y in zip(urows[i], urows[j])) for j in range(m)] for i in range(m)]
+        uvec = [D[i][j] for i in range(m) for j in range(i + 1, m)]
+        if table:
+            data = pd.DataFrame(dict(TRAV=["TRAV1-1*01"] * big, CDR3A=[x[0] for x in rows], TRBV=["TRBV2*01"] * big, CDR3B=[x[1] for x in rows]),
+                                index=[f"c{i}" for i in range(big)][::-1])
+        else:
+            data = [[x[0] for x in rows], np.array([x[0] for x in rows], dtype=object)][r % 4 // 2]
+        ev = dict(op="HierBig", t=t, single=(method == "single"), raised=False, flat=[], idx=[i + 1 for i in idx], uvec=uvec)
+        try:
+            link, flat = prs.hierarchical_clustering(data, linkage_kws=dict(method=method), cluster_kws=dict(t=t, criterion="distance"))
+            ev["flat"] = [int(c) for c in flat]
+            ia = np.array(idx)
+            iu, ju = np.triu_indices(big, k=1)
+            vec = np.array(D, dtype=float)[ia[iu], ia[ju]]             # the spec-checked distances lifted to the whole collection
+            want_link = hc.linkage(vec, method=method)
+            want_flat = hc.fcluster(want_link, t=t, criterion="distance")
+            if not (np.shape(link) == np.shape(want_link) and np.allclose(link, want_link) and list(want_flat) == list(flat)):
+                scipy_bad.append((sid, method, t, [f"{big} rows: copies of"] + urows))
+        except Exception as e:      # noqa: BLE001
+            ev.update(raised=True, exc=f"{type(e).__name__}: {e}"[:200])
+        out.append(dict(sid=sid, kind="hier", n=big, edges=[], seqs=[[nc.enc(c, amap) for c in r_] for r_ in urows], events=[ev],
+                        desc=dict(rows=urows, copies=big, method=method, t=t, table=table)))
+    return out, scipy_bad
+
+
 def run(ctx):
     ctx.rule = ("Clustering.tla: connected components by label propagation (Propagate, DropSingles) and single-linkage agglomeration with "
                 "nondeterministic tie-breaking (Merge, Stop) are model-checked for every graph on <= 5 nodes and every small distance matrix "
@@ -214,6 +264,9 @@ def run(ctx):
         run_cfg(ctx, "sl5", cfg_text(["sl"], maxnodes=5, maxd=1, thresholds=(0, 1), emit=False))
     ctx.exhaustive = True
     sessions, scipy_bad = make_sessions(ctx, 40 if q else 400)
+    bs, bb = big_sessions(ctx, 5001, 4 if q else 24)
+    sessions += bs
+    scipy_bad += bb
     for sid, method, t, rows in scipy_bad:
         ctx.violation(f"hierarchical_clustering/{method}/differs_from_scipy", f"hierarchical_clustering({rows[:5]}.., method={method}, t={t}) differs from SciPy on the metric's distances",
                       dict(kind="scipy", rows=rows, method=method, t=t))
